@@ -37,7 +37,7 @@ pub struct Case {
 pub struct C19;
 
 fn mk_link(key: Option<usize>, relative: bool, oneshot: bool, algo: Algo, pre_reads: Vec<usize>, declare: Declare, integ: IntegDecl) -> LinkSpec {
-    LinkSpec { key, blob: 0, target: 0, relative, algo: if oneshot { Algo::Sha256 } else { algo }, oneshot, pre_reads, declare, integ }
+    LinkSpec { key, blob: 0, target: 0, relative, algo: if oneshot { Algo::Sha256 } else { algo }, oneshot, pre_reads, declare, integ, dotdot_via_symlink: false, vectored_reads: false }
 }
 
 impl Engine for C19 {
@@ -156,7 +156,7 @@ impl Engine for C19 {
                 cwd = cwd.join(format!("d{d}"));
             }
             std::fs::create_dir_all(&cwd).map_err(|e| format!("INFRA: {e}"))?;
-            let warm = LinkSpec { key: Some(1), blob: 1, target: 1, relative: true, algo: Algo::Sha256, oneshot: c.cwd_depth % 2 == 0, pre_reads: vec![], declare: Declare::Exact, integ: IntegDecl::None };
+            let warm = LinkSpec { key: Some(1), blob: 1, target: 1, relative: true, algo: Algo::Sha256, oneshot: c.cwd_depth % 2 == 0, pre_reads: vec![], declare: Declare::Exact, integ: IntegDecl::None, dotdot_via_symlink: false, vectored_reads: false };
             let two_links = c.cwd_depth % 2 == 1 || c.post == Post::None;
             let steps = if two_links {
                 vec![Step { op: Op::LinkTo(warm.clone()), fl: c.fl }, Step { op: Op::Chdir { dir: 7 + c.cwd_depth as usize }, fl: Fl::Sync }, step.clone()]
